@@ -2,7 +2,7 @@
    MemoryLeakDetector.cpp on every run (gen/Gen_Leaf.v), read as state transformers over (positions_filled_, write_limit_):
    add (with the size handed to vsnprintf), clear, setWriteLimit, resetWriteLimit, reachedItsCapacity. *)
 From Coq Require Import ZArith NArith Bool List Lia String.
-From CppUVerif Require Import lib.CSem gen.Gen_Common gen.Gen_Leaf C14_Model.
+From CppUVerif Require Import lib.CSem gen.Gen_Common gen.Gen_LeafC14 C14_Model.
 Import ListNotations.
 Local Open Scope Z_scope.
 
